@@ -234,6 +234,10 @@ impl<'a> Gen<'a> {
     /// A size / count / length: mostly small (`0..small`), now and then mid-range (at most `cap`).
     fn size(&mut self, small: Word, cap: Word) -> Word {
         if !tiny() && self.r.chance(0.07) {
+            // any size up to the cap now and then (a threshold need not sit at a power of two)
+            if cap > 16 && self.r.chance(0.3) {
+                return self.r.range(15, cap + 1);
+            }
             let c: Vec<Word> = MID.iter().copied().filter(|m| *m <= cap).collect();
             if !c.is_empty() {
                 return *self.r.pick(&c);
